@@ -861,6 +861,19 @@ var junkSrc = []interface{}{nil, int64(0), int64(1), int64(-7), int64(300), int8
 
 func sameStruct(tbl *sqlgen.Table, a, b interface{}) (bool, string) {
 	ea, eb := reflect.ValueOf(a).Elem(), reflect.ValueOf(b).Elem()
+	// fields that are not columns (unexported, `sql:"-"`) are never set by the generator and must not be
+	// written by a decoder either
+	isCol := map[int]bool{}
+	for _, c := range tbl.Columns {
+		if len(c.Index) == 1 {
+			isCol[c.Index[0]] = true
+		}
+	}
+	for i := 0; i < eb.NumField(); i++ {
+		if !isCol[i] && !reflect.DeepEqual(fieldValue(eb.Field(i)), fieldValue(ea.Field(i))) {
+			return false, "(non-column field " + tbl.Type.Field(i).Name + ")"
+		}
+	}
 	for _, c := range tbl.Columns {
 		fa, fb := ea.FieldByIndex(c.Index), eb.FieldByIndex(c.Index)
 		if !sameField(fa, fb) {
@@ -868,6 +881,24 @@ func sameStruct(tbl *sqlgen.Table, a, b interface{}) (bool, string) {
 		}
 	}
 	return true, ""
+}
+
+// fieldValue reads a field, also an unexported one, for comparison.
+func fieldValue(f reflect.Value) interface{} {
+	if f.CanInterface() {
+		return f.Interface()
+	}
+	switch f.Kind() {
+	case reflect.Bool:
+		return f.Bool()
+	case reflect.String:
+		return f.String()
+	case reflect.Int, reflect.Int8, reflect.Int16, reflect.Int32, reflect.Int64:
+		return f.Int()
+	case reflect.Ptr, reflect.Map, reflect.Slice:
+		return f.IsNil()
+	}
+	return fmt.Sprint(f)
 }
 
 func sameField(a, b reflect.Value) bool {
@@ -1207,7 +1238,7 @@ func runCase(run *vh.Run, schema *sqlgen.Schema, idx int, c Case) *obs {
 				if f24[col] {
 					sig = "binlog-unsigned-int-narrower-than-field"
 				}
-				if cd := tbl.ColumnsByName[col].Descriptor; cd.Type == bytesType && cd.Tags.Contains("json") {
+				if cc := tbl.ColumnsByName[col]; cc != nil && cc.Descriptor.Type == bytesType && cc.Descriptor.Tags.Contains("json") {
 					sig = "json-tagged-bytes-not-decoded-as-json"
 				}
 				failCap(run, idx, sig, fmt.Sprintf("row %d column %s: sent %s, representation %s, decoded %s", k, col, printStruct(tbl, ob.x), describeRow(ro), printStruct(tbl, ro.built)), c)
